@@ -981,7 +981,12 @@ def mon_C06(s):
                         # every published value equals an independent evaluation of its expression on
                         # what the task saw, overlaid with the entries published before it in the
                         # same block (only where that evaluation is unambiguous)
-                        if t.get("with") is None and op.get("item") is None and op["status"] in ("succeeded", "failed") \
+                        # (only when this very report completed the record: a late or duplicate report
+                        # leaves the snapshots of the earlier completion in place)
+                        before = s["replies"][i - 1].get("state") if i > 0 else None
+                        fresh = before is not None and idx < len(before["sequence"]) and \
+                            before["sequence"][idx]["status"] not in TERMINAL
+                        if fresh and t.get("with") is None and op.get("item") is None and op["status"] in ("succeeded", "failed") \
                                 and rec["status"] == op["status"]:
                             try:
                                 roll = {}
